@@ -73,7 +73,9 @@ ZSKS[3], ZSKS[4] = ksrxml.mk_key(_ta, alg=8, ident="ZSK-twin-a"), ksrxml.mk_key(
 ksrxml.POOL.save()
 RP = dict(EXAMPLE["request_policy"], rsa_approved_key_sizes=[1024])
 CFG = ceremony.make_config({n: ceremony.ksk_def(k) for n, k in KSKS.items()},
-                           {n: {i: {k: v for k, v in a.items() if v} for i, a in s.items()} for n, s in SCHEMAS.items()},
+                           # a schema is a table from slot number to actions: the order in which its slots are written down in the file is the author's business
+                           {n: {i: {k: v for k, v in a.items() if v} for i, a in (list(s.items())[j % 9:] + list(s.items())[:j % 9] if j % 3 else reversed(list(s.items())))}
+                            for j, (n, s) in enumerate(SCHEMAS.items(), 1)},
                            request_policy=RP, response_policy=EXAMPLE["response_policy"],
                            ksk_policy={k: v for k, v in EXAMPLE["ksk_policy"].items() if k != "signers_name"})
 POL = CFG.request_policy
